@@ -2,7 +2,10 @@ package wire
 
 import (
 	"bytes"
+	"compress/flate"
+	"errors"
 	"fmt"
+	"io"
 )
 
 // Params are the negotiated permessage-deflate parameters of a connection.
@@ -66,46 +69,42 @@ type Effect struct {
 	Frame  int    // index of the frame that caused the effect
 }
 
-// RefEndpoint is the reference receive state machine of one endpoint.
+// RefEndpoint is the reference receive state machine of one endpoint. It is
+// fed the byte stream the endpoint receives (possibly cut short) and says what
+// a correct RFC 6455/7692 receiver does with it.
 type RefEndpoint struct {
 	Server bool   // role of this (receiving) endpoint
 	P      Params // negotiated parameters
 	Limit  int64  // read limit after decompression, <0 = unlimited
 
-	inMsg   bool
-	cur     Msg
-	raw     []byte
-	inf     *Inflater
-	done    bool // failed or closed: nothing more is processed
-	nframes int
+	inMsg bool
+	cur   Msg
+	raw   []byte
+	inf   *Inflater
+}
 
-	// Partial is, after a failure inside a message, the raw (uncompressed
-	// messages only) payload received for that message before the failing frame.
-	Partial []byte
-	// PartialCompressed tells that the failed message was compressed.
+// Terminal says how processing of a stream ended.
+type Terminal struct {
+	Kind   string // "fail" (protocol violation), "close" (Close frame received), "eof" (stream ended)
+	Class  string // violation class for "fail"
+	Code   int    // close code
+	Reason string
+	Offset int // stream offset of the frame at which processing ended
+	Frame  int // index of that frame
+	// MidFrame: for "eof", the stream ended inside a frame (header or payload).
+	MidFrame bool
+	// InMessage: a data message was in progress (started, final frame not complete).
+	InMessage bool
+	// Partial is the payload (unmasked, still compressed if PartialCompressed)
+	// received for the message in progress.
+	Partial           []byte
 	PartialCompressed bool
-	InMsgAtEnd        bool
+	PartialType       byte
+	// BadDeflate is set when a compressed message could not be inflated: from
+	// there on the content is unspecified.
+	BadDeflate bool
 }
 
-func (e *RefEndpoint) fail(class string, idx int) []Effect {
-	e.done = true
-	if e.inMsg {
-		e.Partial = e.raw
-		e.PartialCompressed = e.cur.Compressed
-		e.InMsgAtEnd = true
-	}
-	return []Effect{{Kind: "fail", Class: class, Frame: idx}}
-}
-
-// Done reports whether the endpoint has failed or processed a Close frame.
-func (e *RefEndpoint) Done() bool { return e.done }
-
-// InMessage reports whether a fragmented message is in progress, and the raw
-// payload collected so far.
-func (e *RefEndpoint) InMessage() (bool, Msg, []byte) { return e.inMsg, e.cur, e.raw }
-
-// FeedHeader validates a frame header alone (what a receiver can decide before
-// any payload arrives). It returns a violation class or "".
 func (e *RefEndpoint) headerViolation(h Frame, declLen uint64, lenForm int) string {
 	if h.Rsv2 || h.Rsv3 {
 		return VioRsv
@@ -116,11 +115,8 @@ func (e *RefEndpoint) headerViolation(h Frame, declLen uint64, lenForm int) stri
 			return VioRsv1NoExt
 		case h.Op == OpCont:
 			return VioRsv1OnCont
-		case h.Op != OpText && h.Op != OpBinary:
-			// control or reserved opcode with RSV1
-			if h.Op&0x8 != 0 && (h.Op == OpClose || h.Op == OpPing || h.Op == OpPong) {
-				return VioRsv1Control
-			}
+		case h.Op == OpClose || h.Op == OpPing || h.Op == OpPong:
+			return VioRsv1Control
 		}
 	}
 	if lenForm == 8 && declLen>>63 != 0 {
@@ -153,79 +149,136 @@ func (e *RefEndpoint) headerViolation(h Frame, declLen uint64, lenForm int) stri
 	return ""
 }
 
-// Feed processes one complete frame and returns its effects.
-func (e *RefEndpoint) Feed(f Frame) []Effect {
-	idx := e.nframes
-	e.nframes++
-	if e.done {
-		return nil
-	}
-	dl := uint64(len(f.Payload))
-	if f.DeclLen != 0 {
-		dl = f.DeclLen
-	}
-	form := f.LenForm
-	if form < 0 {
-		form = MinimalForm(dl)
-	}
-	if v := e.headerViolation(f, dl, form); v != "" {
-		return e.fail(v, idx)
-	}
-	switch f.Op {
-	case OpPing:
-		return []Effect{{Kind: "pong", Data: append([]byte(nil), f.Payload...), Frame: idx}}
-	case OpPong:
-		return nil
-	case OpClose:
-		code, reason, ok := ParseClose(f.Payload)
-		if !ok {
-			return e.fail(VioClosePay, idx)
-		}
-		e.done = true
+// Run processes the received stream from the beginning and returns the
+// effects in order (messages delivered, pongs owed) and how it ended.
+func (e *RefEndpoint) Run(stream []byte) ([]Effect, Terminal) {
+	var effects []Effect
+	pos := 0
+	idx := 0
+	term := func(t Terminal) ([]Effect, Terminal) {
+		t.Offset = pos
+		t.Frame = idx
 		if e.inMsg {
-			e.Partial = e.raw
-			e.PartialCompressed = e.cur.Compressed
-			e.InMsgAtEnd = true
+			t.InMessage = true
+			t.Partial = e.raw
+			t.PartialCompressed = e.cur.Compressed
+			t.PartialType = e.cur.Type
+			if t.PartialCompressed && !t.BadDeflate {
+				// is what arrived of the compressed message already invalid?
+				tk, hist := e.History()
+				var dict []byte
+				if tk {
+					dict = hist
+				}
+				_, err := io.Copy(io.Discard, flate.NewReaderDict(bytes.NewReader(e.raw), dict))
+				var ce flate.CorruptInputError
+				if errors.As(err, &ce) {
+					t.BadDeflate = true
+				}
+			}
 		}
-		return []Effect{{Kind: "close", Code: code, Reason: reason, Frame: idx}}
+		return effects, t
 	}
-	// data frame
-	if f.Op != OpCont {
-		e.inMsg = true
-		e.cur = Msg{Type: f.Op, Compressed: f.Rsv1}
-		e.raw = nil
-	}
-	e.cur.Fragments++
-	e.raw = append(e.raw, f.Payload...)
-	if !e.cur.Compressed && e.Limit >= 0 && int64(len(e.raw)) > e.Limit {
-		return e.fail(VioTooBig, idx)
-	}
-	if !f.Fin {
-		return nil
-	}
-	e.inMsg = false
-	m := e.cur
-	m.RawLen = len(e.raw)
-	if m.Compressed {
-		if e.inf == nil {
-			// the sender is the peer of this endpoint
-			e.inf = &Inflater{Takeover: e.P.SenderTakeover(!e.Server)}
+	for {
+		if pos == len(stream) {
+			return term(Terminal{Kind: "eof"})
 		}
-		out, big, err := e.inf.Message(e.raw, e.Limit)
-		if big {
-			e.done = true
-			return []Effect{{Kind: "fail", Class: VioTooBig, Frame: idx}}
-		}
+		h, err := ParseHeader(stream[pos:])
 		if err != nil {
-			e.done = true
-			return []Effect{{Kind: "fail", Class: VioInflate, Frame: idx}}
+			return term(Terminal{Kind: "eof", MidFrame: true})
 		}
-		m.Data = out
-	} else {
-		m.Data = e.raw
+		if v := e.headerViolation(h.Frame, h.Len, h.LenForm); v != "" {
+			return term(Terminal{Kind: "fail", Class: v})
+		}
+		avail := uint64(len(stream) - pos - h.HdrLen)
+		short := avail < h.Len
+		n := h.Len
+		if short {
+			n = avail
+		}
+		payload := append([]byte(nil), stream[pos+h.HdrLen:pos+h.HdrLen+int(n)]...)
+		if h.Masked {
+			XOR(payload, h.Key, 0)
+		}
+		if h.IsControl() {
+			if short {
+				return term(Terminal{Kind: "eof", MidFrame: true})
+			}
+			switch h.Op {
+			case OpPing:
+				effects = append(effects, Effect{Kind: "pong", Data: payload, Frame: idx})
+			case OpClose:
+				code, reason, ok := ParseClose(payload)
+				if !ok {
+					return term(Terminal{Kind: "fail", Class: VioClosePay})
+				}
+				return term(Terminal{Kind: "close", Code: code, Reason: reason})
+			}
+			pos += h.HdrLen + int(n)
+			idx++
+			continue
+		}
+		// data frame
+		if h.Op != OpCont {
+			e.inMsg = true
+			e.cur = Msg{Type: h.Op, Compressed: h.Rsv1}
+			e.raw = nil
+		}
+		e.cur.Fragments++
+		e.raw = append(e.raw, payload...)
+		if !e.cur.Compressed && e.Limit >= 0 && int64(len(e.raw)) > e.Limit {
+			return term(Terminal{Kind: "fail", Class: VioTooBig})
+		}
+		if short {
+			return term(Terminal{Kind: "eof", MidFrame: true})
+		}
+		if h.Fin {
+			m := e.cur
+			m.RawLen = len(e.raw)
+			if m.Compressed {
+				if e.inf == nil {
+					// the sender is the peer of this endpoint
+					e.inf = &Inflater{Takeover: e.P.SenderTakeover(e.Server)}
+				}
+				out, big, err := e.inf.Message(e.raw, e.Limit)
+				if big {
+					return term(Terminal{Kind: "fail", Class: VioTooBig})
+				}
+				if err != nil {
+					return term(Terminal{Kind: "fail", Class: VioInflate, BadDeflate: true})
+				}
+				m.Data = out
+			} else {
+				m.Data = e.raw
+			}
+			e.inMsg = false
+			e.raw = nil
+			effects = append(effects, Effect{Kind: "msg", Msg: m, Frame: idx})
+		}
+		pos += h.HdrLen + int(n)
+		idx++
 	}
-	e.raw = nil
-	return []Effect{{Kind: "msg", Msg: m, Frame: idx}}
+}
+
+// InflatePrefix inflates as much as possible of a truncated compressed
+// message payload (no tail appended) and returns what a streaming receiver
+// could legitimately have produced from it.
+func InflatePrefix(raw []byte, takeover bool, hist []byte) []byte {
+	var dict []byte
+	if takeover {
+		dict = hist
+	}
+	r := flate.NewReaderDict(bytes.NewReader(raw), dict)
+	out, _ := io.ReadAll(r)
+	return out
+}
+
+// History returns the reference inflater's current window (for InflatePrefix).
+func (e *RefEndpoint) History() (takeover bool, hist []byte) {
+	if e.inf == nil {
+		return e.P.SenderTakeover(e.Server), nil
+	}
+	return e.inf.Takeover, e.inf.hist
 }
 
 // ---------------------------------------------------------------------------
